@@ -102,7 +102,13 @@ def replay_and_validate(run, vh, behaviours, label, what_prefix, capinv=True):
     if not behaviours:
         return
     names = sorted({n for b in behaviours for n in b["names"]})
-    tf = run.harness_parallel(vh, "store", behaviours, label)
+    crashes = []
+    tf = run.harness_parallel(vh, "store", behaviours, label, crashes=crashes)
+    for c in crashes:
+        b = c["behaviour"]
+        run.violation("%s: the process died (%s) while the %s store (cap=%s maxkb=%s) executed this history" % (
+            what_prefix, "; ".join(c["signature"][:1]) or "rc=%s" % c["rc"], b.get("store"), b.get("cap"), b.get("maxkb")),
+            {"behaviour": b, "crash": {k: c[k] for k in ("rc", "signature", "stderr_tail")}, "replay_kind": "store"})
     res = run.validate("MailstoreTrace", TRACE_CFG % dict(mbs=tla_set(names), capinv="CapInv" if capinv else ""), tf)
     run.cov["evaluations"] += len(behaviours)
     byid = {b["id"]: b for b in behaviours}
